@@ -62,6 +62,145 @@ theorem any_eq_filter_ne_nil (l : List Obs) : l.any isSpinObs = !(l.filter isSpi
     cases h : isSpinObs o <;> simp [ih]
 
 
+/-! ### no spin, for whole scripts -/
+
+/-- **One dispatch poll observes no spin** (fixed `ensure_writeable`): `run`'s fuel `runFuel s` exceeds
+`runMeasure s`, so it never runs out (`run_no_spin`); the shutdown path and the drop make no transport call. -/
+theorem pollDispatch_no_spin (s : St) (now : Nat) (hel : s.ensureLoop = false) :
+    (pollDispatch s now).obs.filter isSpinObs = s.obs.filter isSpinObs := by
+  have hf : runMeasure { s with dWoken := false } < runFuel { s with dWoken := false } := runMeasure_lt_runFuel _
+  have hcore : (pollDispatchCore { s with dWoken := false } now).1.obs.filter isSpinObs = s.obs.filter isSpinObs := by
+    refine pollDispatchCore_cases (motive := fun p => p.1.obs.filter isSpinObs = s.obs.filter isSpinObs)
+      { s with dWoken := false } now ?_ ?_ ?_ ?_ ?_
+    · intro a s1 fin _ h1
+      have := filter_spinObs_of_tObs (shutDown_frameA { s with dWoken := false } a).tobs
+      rw [h1] at this; exact this
+    · intro s1 _ h1
+      have := run_no_spin (runFuel { s with dWoken := false }) { s with dWoken := false } now hel hf
+      rw [h1] at this; exact this
+    · intro s1 _ h1
+      have := run_no_spin (runFuel { s with dWoken := false }) { s with dWoken := false } now hel hf
+      rw [h1] at this; exact this
+    · intro s1 _ h1
+      have := run_no_spin (runFuel { s with dWoken := false }) { s with dWoken := false } now hel hf
+      rw [h1] at this; exact this
+    · intro s1 a s2 fin _ h1 h2
+      have h := run_no_spin (runFuel { s with dWoken := false }) { s with dWoken := false } now hel hf
+      rw [h1] at h
+      have := filter_spinObs_of_tObs (shutDown_frameA { s1 with termErr := some a } a).tobs
+      rw [h2] at this; exact this.trans h
+  have hkeep : (pollDispatchKeep s now).obs.filter isSpinObs = s.obs.filter isSpinObs := by
+    rw [pollDispatchKeep_eq]
+    split
+    · simp [isSpinObs]
+    · rcases hc : pollDispatchCore { s with dWoken := false } now with ⟨s1, r⟩
+      rw [hc] at hcore
+      simp only at hcore ⊢
+      have hk : (keepFinish s.obs s1 r).obs.filter isSpinObs = s.obs.filter isSpinObs := by
+        unfold keepFinish
+        rw [any_eq_filter_ne_nil, any_eq_filter_ne_nil, hcore]
+        simp only [Bool.and_not_self, Bool.false_eq_true, ↓reduceIte]
+        split
+        · exact hcore
+        · simp [isSpinObs, hcore]
+      unfold keepDone
+      split
+      · exact hk
+      · exact hk
+  rw [pollDispatch_eq]
+  split
+  · exact (filter_spinObs_of_tObs (dropDispatch_frameA _).tobs).trans hkeep
+  · exact hkeep
+
+/-- A step that keeps the `ensure_writeable` variant and adds no `Obs.spin`. -/
+structure NoSpinStep (s s' : St) : Prop where
+  el : s'.ensureLoop = s.ensureLoop
+  spin : s'.obs.filter isSpinObs = s.obs.filter isSpinObs
+
+theorem NoSpinStep.refl (s : St) : NoSpinStep s s := ⟨rfl, rfl⟩
+theorem NoSpinStep.trans {s s1 s2 : St} (h1 : NoSpinStep s s1) (h2 : NoSpinStep s1 s2) : NoSpinStep s s2 :=
+  ⟨h2.el.trans h1.el, h2.spin.trans h1.spin⟩
+theorem NoSpinStep.of_frameA {s s' : St} (h : FrameA s s') : NoSpinStep s s' :=
+  ⟨h.ensureLoop, filter_spinObs_of_tObs h.tobs⟩
+
+theorem pollDispatch_noSpinStep (s : St) (now : Nat) (hel : s.ensureLoop = false) :
+    NoSpinStep s (pollDispatch s now) :=
+  ⟨pollDispatch_ensureLoop s now, pollDispatch_no_spin s now hel⟩
+
+theorem dropCall_noSpinStep (s : St) (cid : Nat) (at_ : DropAt) (now : Nat) (hel : s.ensureLoop = false) :
+    NoSpinStep s (dropCall s cid at_ now) := by
+  unfold dropCall
+  dsimp only
+  have step : ∀ (b : Bool) (x : St), NoSpinStep s x →
+      NoSpinStep s (if b = true then pollDispatch x now else x) := by
+    intro b x hx; split
+    · exact hx.trans (pollDispatch_noSpinStep x now (hx.el.trans hel))
+    · exact hx
+  exact (step _ _ ((step _ _ ((step _ _ (.of_frameA (dropPre_frameA s cid))).trans
+    (.of_frameA (dropClose_frameA _ cid)))).trans (.of_frameA (dropCancel_frameA _ cid)))).trans
+    (.of_frameA (dropFinish_frameA _ cid))
+
+theorem liftT_noSpinStep (s : St) (r : SimT × Bool) : NoSpinStep s (liftT s r) := by
+  unfold liftT; dsimp only; split
+  · exact ⟨by simp, by rw [filter_spinObs_of_tObs (wakeDispatch_frameA _).tobs]⟩
+  · exact ⟨rfl, rfl⟩
+
+theorem take_noSpinStep (s : St) (t' : SimT) (ms : List Msg) :
+    NoSpinStep s (ms.foldl (fun s m => emit s (.took (tid s) m)) { s with t := t' }) := by
+  have h1 : NoSpinStep s { s with t := t' } := ⟨rfl, rfl⟩
+  generalize ({ s with t := t' } : St) = s1 at h1
+  induction ms generalizing s1 with
+  | nil => exact h1
+  | cons m ms ih => exact ih _ (h1.trans (.of_frameA (emit_frameA _ _ rfl)))
+
+/-- Every op of a script keeps the variant and, with the fixed `ensure_writeable`, adds no spin. -/
+theorem applyOp_noSpinStep (c : Sys) (op : COp) (hel : c.s.ensureLoop = false) :
+    NoSpinStep c.s (applyOp c op).s := by
+  cases op with
+  | call hd d tr b => exact .of_frameA (newCall_frameA _ _ _ _)
+  | pollCall cid => exact .of_frameA (pollCall_frameA _ _ _)
+  | dropCall cid site => exact dropCall_noSpinStep _ _ _ _ hel
+  | clone hd => exact .of_frameA (cloneHandle_frameA _ _)
+  | dropHandle hd => exact .of_frameA (dropHandle_frameA _ _)
+  | pollDispatch => exact pollDispatch_noSpinStep _ _ hel
+  | dropDispatch => exact .of_frameA (dropDispatch_frameA _)
+  | injectResp id res => exact liftT_noSpinStep _ _
+  | injectErr => exact liftT_noSpinStep _ _
+  | eof => exact liftT_noSpinStep _ _
+  | setReady b => exact liftT_noSpinStep _ _
+  | setFlush b => exact liftT_noSpinStep _ _
+  | fault k => exact ⟨rfl, rfl⟩
+  | take n => exact take_noSpinStep _ _ _
+  | advance n => exact .of_frameA (onAdvance_frameA _ _)
+
+/-- No `Obs.spin` in the event trace of a script started with the fixed `ensure_writeable`. -/
+theorem trace_no_spin (ops : List COp) {c : Sys} (hel : c.s.ensureLoop = false) (t : TaskId) :
+    CEv.obs (.spin t) ∉ trace c ops := by
+  induction ops generalizing c with
+  | nil => intro hm; cases hm
+  | cons op ops ih =>
+    have h1 := applyOp_noSpinStep { c with s := { c.s with obs := [] } } op hel
+    intro hm
+    simp only [trace, stepOp, List.mem_cons, reduceCtorEq, false_or, List.mem_append, List.mem_map,
+      List.mem_reverse] at hm
+    rcases hm with ⟨o, ho, he⟩ | hm
+    · cases he
+      have : Obs.spin t ∈ (applyOp { c with s := { c.s with obs := [] } } op).s.obs.filter isSpinObs :=
+        List.mem_filter.mpr ⟨ho, rfl⟩
+      rw [h1.spin] at this
+      simp at this
+    · exact ih (c := { applyOp { c with s := { c.s with obs := [] } } op with
+          s := { (applyOp { c with s := { c.s with obs := [] } } op).s with obs := [] } }) (h1.el.trans hel) hm
+
+/-- No `Obs.spin` among the observations a script accumulates (state form of `trace_no_spin`). -/
+theorem foldl_applyOp_noSpinStep (ops : List COp) (c : Sys) (hel : c.s.ensureLoop = false) :
+    NoSpinStep c.s (ops.foldl applyOp c).s := by
+  induction ops generalizing c with
+  | nil => exact .refl _
+  | cons op ops ih =>
+    have h1 := applyOp_noSpinStep c op hel
+    exact h1.trans (ih _ (h1.el.trans hel))
+
 theorem tNext_closeObs (s : St) : (tNext s).1.obs.filter isCloseObs = s.obs.filter isCloseObs := by
   rw [tNext_eq]; split
   · rfl
